@@ -63,7 +63,7 @@ type inI0Group struct {
 }
 type inI0Opt struct {
 	godi.In
-	A kit.I0 `optional:"true"`
+	A kit.I0   `optional:"true"`
 	B []kit.I0 `group:"g" optional:"true"`
 }
 
